@@ -341,6 +341,7 @@ fn directed_window(rep: &mut Report, r: &mut Rng, rounds: usize) {
         let mut app = |_q: &CoapRequest<CEp>| AppReply { code: 0x44, options: vec![], payload: vec![] };
         let mut hist: Vec<String> = Vec::new();
         let nsteps = r.urange(2, 5);
+        let opening_block = r.bool();
         for step in 0..nsteps {
             rep.eval();
             let mut spec = ReqSpec::new(3, &["win"]);
@@ -352,9 +353,13 @@ fn directed_window(rep: &mut Report, r: &mut Rng, rounds: usize) {
             let szx = r.below(7) as u8;
             let size = szx_size(szx);
             // aim the end of the block at the edge of the reserve
-            let d: i64 = *r.pick(&[-(size as i64), -1, 0, 1, 15, 16, 17, 500, 1183, 1184, 1185, 1200, 1201, 3000]);
+            let d: i64 = *r.pick(&[-(size as i64), -1, 0, 1, 15, 16, 17, 500, 1183, 1184, 1185, 1200, 1201, 3000, 20000, 60000]);
             let target_end = (before as i64 + RESERVE as i64 + d).max(size as i64);
-            let num = ((target_end as usize).div_ceil(size)).max(1) - 1; // end = (num+1)*size >= target
+            let mut num = ((target_end as usize).div_ceil(size)).max(1) - 1; // end = (num+1)*size >= target
+            if step == 0 && opening_block {
+                // the upload opens regularly with block 0 (possibly announcing a large total size)
+                num = 0;
+            }
             if num > 4095 {
                 continue;
             }
